@@ -253,3 +253,16 @@ Example spaced_sample_parses :
 Proof.
   destruct spaced_sample_ok as (H1 & H2 & H3). rewrite (parse_string_spaced spaced_sample ltac:(discriminate) H1 H2 H3). reflexivity.
 Qed.
+
+(* ---------- C02 at string level, any spacing: acceptance and rejection of the text are those of its item tokens ---------- *)
+Require Import ExprSound ExprComplete ExprTotal.
+Corollary spaced_sentences_are_accepted gi e : gi <> [] -> gi_ok gi -> lexemes ecfg eregs (glexs gi) -> wf_str (concat (map snd (glexs gi))) ->
+  D0 (toks_at 0 gi) e -> parse_string (concat (map snd (glexs gi))) = Some (ExprParser.Ok (compile e)).
+Proof. intros Hne Hok Hls Hwf HD. rewrite (parse_string_spaced gi Hne Hok Hls Hwf). f_equal. apply parse_top_complete. exact HD. Qed.
+
+Corollary spaced_non_sentences_are_rejected gi : gi <> [] -> gi_ok gi -> lexemes ecfg eregs (glexs gi) -> wf_str (concat (map snd (glexs gi))) ->
+  (forall e, ~ D0 (toks_at 0 gi) e) -> exists c, parse_string (concat (map snd (glexs gi))) = Some (ExprParser.Err c).
+Proof.
+  intros Hne Hok Hls Hwf Hn. rewrite (parse_string_spaced gi Hne Hok Hls Hwf).
+  destruct (parse_top_rejects (toks_at 0 gi)) as [c Hc]; [destruct gi as [|[it g] r]; [congruence|discriminate]|exact Hn|]. exists c. rewrite Hc. reflexivity.
+Qed.
